@@ -155,7 +155,11 @@ def build(env, spec):
         h = pep.declare_function(cls2, **p2)
         m.functions.append(h)
         w = env.real("w_h")
-        F = f + w * h
+        if spec.get('composite_ops') == 'sub-div':
+            env.assume(env.neg(env.eq(w, 0)))
+            F = (f - (-h) / w)          # the other operators of the function algebra: -, unary -, /
+        else:
+            F = f + w * h
         m.functions.append(F)
         m.params.update(p2)
     x0 = pep.set_initial_point()
